@@ -707,9 +707,10 @@ func (in *Interp) freshReal(base string) *Term {
 // ---- heap / monitor -----------------------------------------------------
 
 func (in *Interp) store(r Ref, v Value) {
-	if in.monitorOn && in.underTest > 0 && in.parseDepth == 0 {
+	if in.monitorOn && in.underTest > 0 {
 		o := r.Origin()
-		if o == OrgDoc || o == OrgAST || o == OrgGlobal {
+		// while Parse runs, the syntax tree under construction is private to the call
+		if o == OrgDoc || (o == OrgAST && in.parseDepth == 0) || o == OrgGlobal {
 			in.Events = append(in.Events, Event{Kind: "sharedwrite", Msg: "store to " + o.String() + " object", Where: in.where(), Stack: in.stackNames()})
 		}
 	}
@@ -1276,7 +1277,7 @@ func (in *Interp) builtin(name string, args []Value, c *ssa.CallCommon, site ssa
 		}
 		idx := in.mapFind(m, args[1])
 		if idx >= 0 {
-			if in.monitorOn && in.underTest > 0 && in.parseDepth == 0 && (m.Org == OrgDoc || m.Org == OrgAST || m.Org == OrgGlobal) {
+			if in.monitorOn && in.underTest > 0 && (m.Org == OrgDoc || (m.Org == OrgAST && in.parseDepth == 0) || m.Org == OrgGlobal) {
 				in.Events = append(in.Events, Event{Kind: "sharedwrite", Msg: "delete from " + m.Org.String() + " map", Where: in.where(), Stack: in.stackNames()})
 			}
 			m.Keys = append(m.Keys[:idx:idx], m.Keys[idx+1:]...)
